@@ -16,8 +16,8 @@ CLAIMED = {
         design='5/C01',
         note='Trusted: Coq kernel; numpy/dask reshape+transpose semantics (Base/NdArray.v); numpy argsort stable for <= 16 keys; labels distinct '
              '(abstracted to ids). Open known finding: more dimensions than points on a side (orientation heuristic) - outside the theorem\'s '
-             'hypothesis, reported as KNOWN-FINDING. Exact axis sizes are validated by the correspondence run; the theorem gives rank, '
-             'in-boundness of every grid coordinate and the element map.',
+             'hypothesis, reported as KNOWN-FINDING. The exact shape (one axis per dimension in file order, of that dimension\'s size) is theorem '
+             'C01_exact_shape.',
         technique='Coq proof (induction, permutation/sortedness lemmas, mixed-radix arithmetic) + in-Coq correspondence evaluation'),
     'C03': dict(
         text='Coq theorem compute_spec (any mask, any batch limit >= 1, any map function): compute() terminates, the call log equals the pending '
@@ -53,15 +53,20 @@ CLAIMED = {
         technique='Coq proof (change-count counting lemma, sorted-permutation uniqueness) + in-Coq correspondence evaluation'),
     'C10': dict(
         text='Executable Coq model of reshape_from_n_dims as written (type/size/rank/shape checks, squeezed-side escape, one-sided construction of '
-             'the missing matrix, axis swap from the sort orders) validated in coqc against the real function on round trips (numpy/dask/h5py), '
-             'one-sided calls, permuted-size / wrong-size / other-factorisation N-D arrays and squeezed singleton sides; the independent oracle '
-             'demands the exact original matrix or an exception. Theorems so far: the C01/C09 grid theorems this function relies on plus '
-             'rejection lemmas; the inverse theorem from_nd (to_nd x) = x is not yet proved (partial).',
+             'the missing matrix, axis swap from the sort orders). Theorems (Usid/FromNDProof, GridRoundTrip, GridFromNd): for regular grids with ANY '
+             'number of dimensions, sizes >= 1 and storage order on either side, ANY element type (not more dimensions than points, both index matrices '
+             'supplied): from_nd (to_nd x) = x (original rows x columns, same order); coordinate map of the flattening for ANY N-D array of the right '
+             'shape (element (r,c) = array element at the coordinates carried by row r / column c); to_nd (from_nd b) = b; the same relative to the '
+             'computed sort orders for arbitrary consistent matrices; algebraic core transpose(transpose(a, inv L), L) = a; rejection of requests with '
+             'no matrix, a wrong total size or an N-D shape that differs from the sizes the matrices show (permuted axes). Correspondence in coqc '
+             'against the real function on round trips (numpy/dask/h5py), one-sided calls, permuted-size / wrong-size / other-factorisation arrays and '
+             'squeezed singleton sides; the independent oracle demands the exact original matrix or an exception.',
         design='5/C10',
-        note='Trusted: Coq kernel, numpy transpose/reshape semantics, harness. Partial: inverse theorem pending; three genuine defects found and '
-             'fixed (singleton side, permuted shape accepted, weak one-sided guard); open findings for one-sided calls whose missing side has '
-             'a size-1 dimension and for matrices with dims >= points.',
-        technique='Coq executable model + in-Coq correspondence evaluation + Coq lemmas (partial proof)'),
+        note='Trusted: Coq kernel, numpy transpose/reshape semantics, harness. Partial: one-sided calls (one matrix supplied, the other built from the '
+             'N-D shape) and squeezed singleton sides are covered by the executable model + correspondence, not by the inverse theorems. Three genuine '
+             'defects found and fixed (singleton side, permuted shape accepted, weak one-sided guard); open findings for one-sided calls whose '
+             'missing side has a size-1 dimension and for matrices with dims >= points.',
+        technique='Coq proof (permutation round trip, composition with the C01/C09 grid theorems, extensionality of N-D arrays) + in-Coq correspondence evaluation'),
     'C13': dict(
         text='Coq theorems over strings (lists of ASCII) for ANY contents of the parent group: the assigned name is <base>_NNN with NNN = 1 + highest '
              'number of groups named exactly <base>_<digits> (000 if none), differs from every existing group, creation succeeds and appends only '
